@@ -244,7 +244,7 @@ func (k Keeper) MintToken(
 	if coinMinted.Amount.GT(mintableAmt) {
 		return errorsmod.Wrapf(
 			types.ErrInvalidAmount,
-			"the amount exceeds the mintable token amount; expected (0, %d], got %d",
+			"the amount exceeds the mintable token amount; expected (0, %s], got %s",
 			mintableAmt, coinMinted.Amount,
 		)
 	}
